@@ -562,26 +562,29 @@ def writeStringArrayValues (col : List (Option (List (Option Bytes)))) : Except 
 /-- an allele: position (`None` = `.`) and phasing -/
 abbrev Allele := Option Nat × Bool
 
-/-- `encode_genotype::encode`: a missing allele is `0 | phased` (proposed fix; the code dropped
-the phase bit of a missing allele); `i8::try_from(position)` (`InvalidData`), `(i + 1) << 1 | phased`
-computed in `i8` (`127 + 1` overflows: panic with overflow checks), then `u8::try_from` of the
-`i8` result (`InvalidInput` when the shift went negative) -/
-def encAllele : Allele → Except WErr UInt8
-  | (none, ph) => .ok (if ph then 1 else 0)
+/-- `encode_genotype::encode`: a missing allele is `0 | phased`; `i8::try_from(position)` and
+`i.checked_add(1)` (`InvalidData` for a position ≥ 127; fix: `127 + 1` used to overflow), then
+`(i + 1) << 1 | phased` computed in `i8`: for positions 63..126 the shift goes negative, which is
+only noticed later, when `write_genotype_values` converts each value with `u8::try_from`
+(`InvalidInput`) — `none` stands for such a negative value -/
+def encAllele : Allele → Except WErr (Option UInt8)
+  | (none, ph) => .ok (some (if ph then 1 else 0))
   | (some p, ph) =>
-    if 127 < p then .error .invalidData
-    else if p = 127 then .error .panic
-    else if 63 ≤ p then .error .invalidInput
-    else .ok (UInt8.ofNat ((p + 1) * 2 + (if ph then 1 else 0)))
+    if 127 ≤ p then .error .invalidData
+    else if 63 ≤ p then .ok none
+    else .ok (some (UInt8.ofNat ((p + 1) * 2 + (if ph then 1 else 0))))
 
 def EOV8 : UInt8 := 0x81
 
-/-- `write_genotype_values`. A sample without a genotype value is refused. Padding with
-end-of-vector is written once per sample, after the alleles (proposed fix; the code wrote the
-padding after every allele). -/
-def encGenotype : Option (List Allele) → Except WErr (List UInt8)
+/-- `write_genotype_values`, first loop: every sample's genotype is encoded (a sample without a
+genotype value is refused) -/
+def encGenotype : Option (List Allele) → Except WErr (List (Option UInt8))
   | none => .error .invalidInput
   | some g => mapM' encAllele g
+
+/-- second loop: the values are written; a negative one is `InvalidInput` -/
+def outGenotype (r : List (Option UInt8)) : Except WErr (List UInt8) :=
+  mapM' (fun x => match x with | some b => .ok b | none => .error WErr.invalidInput) r
 
 def writeGenotypeValues (col : List (Option (List Allele))) : Except WErr Bytes :=
   match mapM' encGenotype col with
@@ -589,8 +592,11 @@ def writeGenotypeValues (col : List (Option (List Allele))) : Except WErr Bytes 
   | .ok raws =>
     let n := raws.foldl (fun m r => max m r.length) 0
     match writeType (some (.int .w1, n)) with
-    | .ok d => .ok (d ++ (raws.map fun r => r ++ List.replicate (n - r.length) EOV8).flatten)
     | .error e => .error e
+    | .ok d =>
+      match mapM' outGenotype raws with
+      | .error e => .error e
+      | .ok outs => .ok (d ++ (outs.map fun r => r ++ List.replicate (n - r.length) EOV8).flatten)
 
 /-! ## per-sample columns, readers -/
 
